@@ -31,8 +31,8 @@ var c06Msg = mkSpace("message", []fieldDim{
 	{"ID", []string{"", "absent", "empty"}},
 	{"Version", []string{"", "absent", "empty"}},
 	{"Dest", []string{"", "absent", "scheme", "host", "port", "path", "case", "slash", "slo-endpoint"}},
-	{"NB", []string{"", "-1y", "-1s", "now", "+1us", "+1s", "+1y", "junk", "date", "tz", "tz+", "lowz", "nofrac-", "nofrac+", "9dig-", "9dig+", "zero", "epoch", "max", "zone+past", "zone-future", "zone-past", "zone+future"}},
-	{"NOOA", []string{"", "-1y", "-1us", "now", "+1us", "+1y", "junk", "date", "tz", "tz+", "lowz", "nofrac-", "nofrac+", "9dig-", "9dig+", "zero", "epoch", "max", "zone+past", "zone-future", "zone-past", "zone+future"}},
+	{"NB", []string{"", "-1y", "-1s", "now", "+1us", "+1s", "+1y", "junk", "date", "tz", "tz+", "lowz", "nofrac-", "nofrac+", "9dig-", "9dig+", "zero", "epoch", "max", "zone+past", "zone-future", "zone-past", "zone+future", "y1601", "y1677-", "y1677+", "y2262-", "y2262+", "y2300", "y3000", "leap"}},
+	{"NOOA", []string{"", "-1y", "-1us", "now", "+1us", "+1y", "junk", "date", "tz", "tz+", "lowz", "nofrac-", "nofrac+", "9dig-", "9dig+", "zero", "epoch", "max", "zone+past", "zone-future", "zone-past", "zone+future", "y1601", "y1677-", "y1677+", "y2262-", "y2262+", "y2300", "y3000", "leap"}},
 	{"Encoding", []string{"", "deflate", "unknown", "case"}},
 	{"Special", []string{"", "sigalg-without-signature", "empty-samlrequest", "no-samlrequest"}},
 	{"Host", []string{"", "other.example:8443"}},
